@@ -16,7 +16,7 @@ def run(c):
     _, ev2 = pc.enumerate_programs(c, "C02", 4 if c.quick else 5, ["sum", "diff", "prod", "quot", "lt", "le", "eq", "gt", "ge"], "allops",
                                    formers={"lit", "true", "false", "int", "var", "lam", "app", "bin", "neg", "if", "let1"}, every=100 if c.quick else 1000)
     n = 1 if c.quick else 15
-    ev3 = pc.generated(c, "C02", [("corpus", 0), ("bigint", 300 * n), ("typed", 400 * n, 3), ("deforder", 100 * n), ("recursion", 60 * n, 12 if c.quick else 60), ("alias", 60 * n), ("groups", 150 * n), ("chains", 100 * n)], steps_every=4, fuel=3000 if c.quick else 20000)
+    ev3 = pc.generated(c, "C02", [("corpus", 0), ("bigint", 300 * n), ("typed", 400 * n, 3), ("deforder", 100 * n), ("recursion", 60 * n, 12 if c.quick else 60), ("alias", 60 * n), ("groups", 150 * n), ("chains", 100 * n), ("holedef", 0)], steps_every=4, fuel=3000 if c.quick else 20000)
     allp = pc.validate(c, "C02", [ev1, ev2, ev3], "events", chunk=60)
 
     def mut(ev):
